@@ -611,3 +611,83 @@ fn col_component_eq_is_pointwise() {
     drop(b);
     assert!(all_dead());
 }
+
+// ------------------------------------------------------------------ wide registry: identifier of two bytes
+// Registry W10 = (W0 .. W7 one-byte, T tracked at position 8, W9 two-byte at position 9): the bit of
+// T and W9 sits in the SECOND identifier byte, so column indices must count the set bits of the
+// first byte too.
+macro_rules! wide_comps { ($($n:ident),*) => { $( #[derive(Clone, Copy, PartialEq)] pub struct $n(u8); )* } }
+wide_comps!(W0, W1, W2, W3, W4, W5, W6, W7);
+#[derive(Clone, Copy, PartialEq)]
+pub struct W9(u16);
+type W10 = Registry!(W0, W1, W2, W3, W4, W5, W6, W7, T, W9);
+
+/// `set_component_unchecked` on a component whose bit is in the second identifier byte, in a table
+/// that also has components of the first byte: the new value lands in (and the old value is
+/// dropped from) the column of THAT component; the other columns keep their bytes
+#[kani::proof]
+#[kani::unwind(12)]
+fn col_set_component_second_identifier_byte() {
+    let mut alloc = entity::Allocator::<W10>::new();
+    // table {W1, W6, T, W9}
+    let mut a = Archetype::<W10>::new(unsafe { Identifier::<W10>::new(vec![0b0100_0010, 0b11]) });
+    let v: [u8; 4] = kani::any();
+    let w: [u16; 2] = kani::any();
+    unsafe {
+        a.push(entity!(W1(v[0]), W6(v[1]), T::new(1), W9(w[0])), &mut alloc);
+        a.push(entity!(W1(v[2]), W6(v[3]), T::new(2), W9(w[1])), &mut alloc);
+    }
+    let index: usize = kani::any();
+    kani::assume(index < 2);
+    let newp: u64 = kani::any();
+    unsafe { a.set_component_unchecked::<T, _>(index, T::new(newp)) };
+    assert!(dead(index), "C04: the overwritten T is dropped at that moment");
+    assert!(live(1 - index) && live(2), "C04: nothing else dropped");
+    let col_w1 = a.components[0].0 as *const W1;
+    let col_w6 = a.components[1].0 as *const W6;
+    let col_t = a.components[2].0 as *const T;
+    let col_w9 = a.components[3].0 as *const W9;
+    unsafe {
+        assert!((*col_t.add(index)).payload == newp && (*col_t.add(index)).id == 2, "C01/C05: the value lands in T's column (third column of this table)");
+        assert!((*col_t.add(1 - index)).id == 1 - index, "C01: the other entity's T untouched");
+        assert!((*col_w1.add(0)).0 == v[0] && (*col_w1.add(1)).0 == v[2], "C05: W1's column keeps its bytes");
+        assert!((*col_w6.add(0)).0 == v[1] && (*col_w6.add(1)).0 == v[3], "C05: W6's column keeps its bytes");
+        assert!((*col_w9.add(0)).0 == w[0] && (*col_w9.add(1)).0 == w[1], "C05: W9's column keeps its bytes");
+    }
+    // the later component of the second byte as well
+    let neww: u16 = kani::any();
+    unsafe { a.set_component_unchecked::<W9, _>(index, W9(neww)) };
+    unsafe {
+        assert!((*col_w9.add(index)).0 == neww && (*col_w9.add(1 - index)).0 == w[1 - index], "C01/C05: W9's cell of that row only");
+        assert!((*col_t.add(index)).payload == newp, "C05: T's column untouched by a W9 write");
+    }
+    drop(a);
+    assert!(all_dead());
+}
+
+/// swap-remove in the same wide table: every column (both identifier bytes) moves the last row
+/// into the hole and drops exactly the removed T
+#[kani::proof]
+#[kani::unwind(12)]
+fn col_remove_row_second_identifier_byte() {
+    let mut alloc = entity::Allocator::<W10>::new();
+    let mut a = Archetype::<W10>::new(unsafe { Identifier::<W10>::new(vec![0b0100_0010, 0b11]) });
+    let v: [u8; 4] = kani::any();
+    let w: [u16; 2] = kani::any();
+    unsafe {
+        a.push(entity!(W1(v[0]), W6(v[1]), T::new(1), W9(w[0])), &mut alloc);
+        a.push(entity!(W1(v[2]), W6(v[3]), T::new(2), W9(w[1])), &mut alloc);
+    }
+    unsafe { a.remove_row_unchecked(0, &mut alloc) };
+    assert!(dead(0) && live(1), "C04: exactly the removed row's T is dropped");
+    assert!(a.len() == 1);
+    let col_w1 = a.components[0].0 as *const W1;
+    let col_w6 = a.components[1].0 as *const W6;
+    let col_t = a.components[2].0 as *const T;
+    let col_w9 = a.components[3].0 as *const W9;
+    unsafe {
+        assert!((*col_w1).0 == v[2] && (*col_w6).0 == v[3] && (*col_t).id == 1 && (*col_w9).0 == w[1], "C01: the surviving row keeps all four of its values (columns of both identifier bytes)");
+    }
+    drop(a);
+    assert!(all_dead());
+}
